@@ -99,7 +99,24 @@ $(B)/bin/C12tsan: $(B)/tsan/h_C12tsan.o $(addprefix $(B)/tsan/fitter_,$(addsuffi
 $(B)/bin/C11 $(B)/bin/C10: $(B)/bin/%: $(B)/asan/h_%.o $(ASAN_LIBOBJS) $(ENGINE_OBJS)
 	@mkdir -p $(dir $@)
 	$(CXX) $(SAN) -Wl,--wrap=walk_descents -o $@ $^ $(LIBS)
-harness-C12: $(B)/bin/C12 $(B)/bin/C12tsan
+# memory-access variant: cholesky_solve.c compiled with -fsanitize=thread but linked against engine/sched/ms_mem.c (not the TSan runtime)
+$(B)/schedmem/cholesky_solve.o: $(REPO)/src/fitter/cholesky_solve.c $(VERIF)engine/sched/shim.h
+	@mkdir -p $(dir $@)
+	$(CC) -std=gnu99 -O1 -g -fsanitize=thread -fno-omit-frame-pointer $(INC) $(DEFS) -DMS_MEM -include $(VERIF)engine/sched/shim.h -MMD -c $< -o $@
+$(B)/schedmem/ms_mem.o: $(VERIF)engine/sched/ms_mem.c $(VERIF)engine/sched/ms_sched.h
+	@mkdir -p $(dir $@)
+	$(CC) -std=gnu99 -O1 -g $(INC) -I$(VERIF)engine/sched -c $< -o $@
+$(B)/schedmem/h_C12.o: $(VERIF)checks/C12.cpp $(wildcard $(VERIF)engine/*.hpp) $(VERIF)engine/sched/ms_sched.h
+	@mkdir -p $(dir $@)
+	$(CXX) -std=c++11 -O1 -g -fno-omit-frame-pointer -UNDEBUG -fno-access-control -Wno-deprecated-declarations -Wno-register $(INC) -I$(REPO)/src/fitter $(DEFS) -DC12_MEM -MMD -c $< -o $@
+$(B)/schedmem/ms_sched.o: $(VERIF)engine/sched/ms_sched.c $(VERIF)engine/sched/ms_sched.h
+	@mkdir -p $(dir $@)
+	$(CC) -std=gnu99 -O1 -g -c $< -o $@
+# no AddressSanitizer in this variant: a fork of an ASan process costs ~10x more, and memory safety under every schedule is the job of bin/C12
+$(B)/bin/C12mem: $(B)/schedmem/h_C12.o $(B)/schedmem/cholesky_solve.o $(B)/schedmem/ms_sched.o $(B)/schedmem/ms_mem.o
+	@mkdir -p $(dir $@)
+	$(CXX) -o $@ $^ -lcholmod -lm -lpthread
+harness-C12: $(B)/bin/C12 $(B)/bin/C12tsan $(B)/bin/C12mem
 	@true
 
 harness-%: $(B)/bin/%
